@@ -116,17 +116,41 @@ Theorem html_template_text_clean :
 Proof. exact html_text_no_template_proof. Qed.
 Print Assumptions html_template_text_clean.
 
-(* C09 — templates, tag name / attribute (partial): a region that follows a tag name or an attribute (directly or
-   after whitespace) starts an Attribute token that contains the whole region and has HasTemplate() = true.
-   NOT proved (correspondence + oracle only): regions further inside a name or a value (the converse is
-   html_template_attr_converse below). *)
+(* C09 — templates, attribute names (partial): a region [p,q) that follows a tag name or an attribute after
+   whitespace [cursor,a) and name bytes [a,p) at which no opening delimiter starts (name_plain: not whitespace,
+   '=', '>', "/>"; a = p: the region is the first thing of the attribute) lies inside ONE Attribute token that
+   starts at the cursor, HasTemplate() = true. *)
 Theorem html_template_atomic_attr_partial :
-  forall c d l p q, cfg_ok c -> tb_plain c -> html_inv d l -> intag l = true ->
-    lstart (lz l) = lpos (lz l) -> lpos (lz l) <= p ->
-    (forall i, lpos (lz l) <= i < p -> is_ws (getz d i) = true) -> is_region c d p q ->
+  forall c d l a p q, cfg_ok c -> tb_plain c -> html_inv d l -> intag l = true ->
+    lstart (lz l) = lpos (lz l) -> lpos (lz l) <= a <= p ->
+    (forall i, lpos (lz l) <= i < a -> is_ws (getz d i) = true) ->
+    (forall i, a <= i < p -> name_plain c d i) ->
+    is_region c d p q ->
     exists v l', next c l = Ok (AttributeT, Some v, l') /\ lhas l' = true /\ so v = lpos (lz l) /\ q <= so v + sn v.
-Proof. exact html_template_attr_proof. Qed.
+Proof. exact html_template_attr_name_proof. Qed.
 Print Assumptions html_template_atomic_attr_partial.
+
+(* C09 — templates, attribute values (partial): after whitespace, a non-empty name [a,b) without delimiter start,
+   whitespace, '=' at e and whitespace, a region [p,q) that is the whole start of the value (p = v) or lies inside a
+   single- or double-quoted value after bytes [v+1,p) that are neither the quote nor a delimiter start, lies inside
+   the ONE Attribute token, HasTemplate() = true.
+   NOT proved for attributes (correspondence + oracle only): a second or later region of the same attribute.
+   Exact exception (known finding c09-template:attrval-unquoted-mid): a region that starts in the middle of an
+   UNQUOTED value is not recognised. *)
+Theorem html_template_atomic_attr_value_partial :
+  forall c d l a b e v p q, cfg_ok c -> tb_plain c -> html_inv d l -> intag l = true ->
+    lstart (lz l) = lpos (lz l) -> lpos (lz l) <= a -> a < b -> b <= e -> e < v -> v <= p ->
+    (forall i, lpos (lz l) <= i < a -> is_ws (getz d i) = true) ->
+    (forall i, a <= i < b -> name_plain c d i) ->
+    prefixb (tb c) (skipz b d) = false ->
+    (forall i, b <= i < e -> is_ws (getz d i) = true) -> getz d e = 61 ->
+    (forall i, e < i < v -> is_ws (getz d i) = true) ->
+    (v = p \/ (prefixb (tb c) (skipz v d) = false /\ (getz d v = 34 \/ getz d v = 39) /\
+               forall i, v < i < p -> value_plain c d (getz d v) i)) ->
+    is_region c d p q ->
+    exists tk l', next c l = Ok (AttributeT, Some tk, l') /\ lhas l' = true /\ so tk = lpos (lz l) /\ q <= so tk + sn tk.
+Proof. exact html_template_attr_value_proof. Qed.
+Print Assumptions html_template_atomic_attr_value_partial.
 
 (* C09 — templates, attributes (converse, full): an Attribute token reports HasTemplate() = true only if a delimited
    region [p,q) lies inside it (between the cursor before the call and the cursor after it). *)
